@@ -9,6 +9,7 @@ import (
 	"net/http"
 	"net/url"
 	"strings"
+	"time"
 
 	"github.com/tmpim/casket/caskethttp/httpserver"
 	"github.com/tmpim/casket/zzverif/verifrt"
@@ -345,3 +346,74 @@ func VerifH17eTooLarge() {
 type zzFailTransport struct{ err error }
 
 func (t *zzFailTransport) RoundTrip(*http.Request) (*http.Response, error) { return nil, t.err }
+
+// VerifH04cRetry: with retries enabled, a request whose first backend fails is answered by the
+// second one, and that attempt again carries the original method, path (base + path, once),
+// query, headers (rules applied once) and the complete body.
+func VerifH04cRetry() {
+	base := []string{"", "/b", "/b/"}[verifrt.Choose("base", 3)]
+	targetQuery := []string{"", "?tq=1"}[verifrt.Choose("targetquery", 2)]
+	up := http.Header{}
+	rules := verifrt.Bool("rules")
+	if rules {
+		up["+X-Add"] = []string{"av"}
+		up["X-Set"] = []string{"sv"}
+	}
+	u := &staticUpstream{from: "/", MaxFails: 1, FailTimeout: 10 * time.Second, TryDuration: 5 * time.Second, TryInterval: 250 * time.Millisecond,
+		upstreamHeaders: up, Policy: &First{}}
+	be1 := &zzBackend{fail: []bool{true}}
+	be2 := &zzBackend{}
+	for i, be := range []*zzBackend{be1, be2} {
+		h, err := u.NewHost("http://backend" + []string{"1", "2"}[i] + base + targetQuery)
+		if err != nil {
+			verifrt.Fail("newhost")
+			return
+		}
+		h.ReverseProxy.Transport = be
+		h.ReverseProxy.FlushInterval = 0
+		u.Hosts = append(u.Hosts, h)
+	}
+	p := Proxy{Upstreams: []Upstream{u}}
+	body := verifrt.Bytes("body", verifrt.IntRange("bodylen", 0, 2))
+	query := []string{"", "q=1"}[verifrt.Choose("query", 2)]
+	r := &http.Request{Method: "POST", URL: &url.URL{Path: "/x", RawQuery: query}, Header: http.Header{"X-Add": []string{"client"}}, Host: "site",
+		RemoteAddr: "1.2.3.4:5", ContentLength: int64(len(body)), Body: io.NopCloser(bytes.NewReader(body)), Proto: "HTTP/1.1", ProtoMajor: 1, ProtoMinor: 1}
+	w := &zzClientW{}
+	status, err := p.ServeHTTP(w, r)
+	verifrt.Assert(status == 0 && err == nil && w.status == 200, "answered-by-the-healthy-backend")
+	verifrt.Assert(be1.calls == 1 && be2.calls == 1, "one-attempt-per-backend")
+	out := be2.seen
+	if out == nil {
+		return
+	}
+	join := func(a, b string) string {
+		as, bs := strings.HasSuffix(a, "/"), strings.HasPrefix(b, "/")
+		switch {
+		case as && bs:
+			return a + b[1:]
+		case !as && !bs && b != "":
+			return a + "/" + b
+		}
+		return a + b
+	}
+	verifrt.Assert(out.Method == "POST", "retry-method-unchanged")
+	verifrt.Assert(out.URL.Path == join(base, "/x"), "retry-path-base-applied-once")
+	wantQ := query
+	if targetQuery != "" {
+		wantQ = "tq=1"
+		if query != "" {
+			wantQ += "&" + query
+		}
+	}
+	verifrt.Assert(out.URL.RawQuery == wantQ, "retry-query-applied-once")
+	verifrt.Assert(bytes.Equal(be2.seenBody, body), "retry-receives-the-complete-body")
+	verifrt.Assert(out.URL.Host == "backend2", "retry-goes-to-the-second-backend")
+	if rules {
+		a := out.Header["X-Add"]
+		verifrt.Assert(len(a) == 2 && a[0] == "client" && a[1] == "av", "retry-header-rules-applied-once")
+		verifrt.Assert(len(out.Header["X-Set"]) == 1, "retry-set-rule-once")
+	}
+	xff := out.Header["X-Forwarded-For"]
+	verifrt.Assert(len(xff) == 1 && xff[0] == "1.2.3.4", "retry-xff-once")
+	verifrt.Observe("retry", out.URL.Path, out.URL.RawQuery)
+}
